@@ -199,6 +199,11 @@ func (t *Term) String() string {
 		if len(t.args) == 0 {
 			s = s[1 : len(s)-1]
 		}
+		if len(s) > 4<<20 {
+			// the textual form of a DAG-shaped term grows exponentially: give this path up
+			// (reported as inconclusive) instead of exhausting memory
+			panic(pathStop{"unsupported", "term blow-up: a term's SMT text exceeds 4 MB"})
+		}
 	}
 	t.key = s
 	return s
